@@ -7,8 +7,9 @@ from ..core import HEADER, CASE_TYPE, CHECK, MODEL_VIEW, SHARD, CASE_TIMEOUT, ob
 ID = "C07"
 THEOREMS = ["C07_data_bytes", "C07_data_decode", "C07_data_layout", "C07_ascii", "C07_incbin", "C07_le_length",
             "C07_text_scan", "C07_text_parse", "C07_text_passes", "C07_text_initial_resolver", "C07_text", "C07_text_lorom",
-            "C07_text_bytes", "C07_text_layout"]
-PROOF_HEADER = "From A816 Require Import Properties.C07 Properties.C07Text."
+            "C07_text_bytes", "C07_text_layout",
+            "C07_oracle_value_bytes", "C07_oracle_item_bytes", "C07_oracle_items_bytes", "C07_oracle_end_label", "C07_oracle_end_label_items"]
+PROOF_HEADER = "From A816 Require Import Properties.C07 Properties.C07Text Properties.C07Oracle."
 
 
 def instantiate(gen_q):
